@@ -7,7 +7,7 @@ def plan(tier, seed):
     base = [H("c08::rt_u8", D, "all values"), H("c08::rtc_u32", D + " (cubes)", "0, powers of ten, MAX +- 255")]
     if tier == "thorough":
         base += [H("c08::rt_%s" % t, D, "all values") for t in ("i8", "u16", "i16")] + [H("c08::rtc_%s" % t, D + " (cubes)", "") for t in ("i32", "u64", "i64")]
-    groups = [KGroup("R", base, timeout=800 if tier == "quick" else 7200, jobs=8, mem_gb=12, label="decimal (radix build; the default-feature build of the same harness needs > 800 s)")]
+    groups = [KGroup("RF", base, timeout=800 if tier == "quick" else 7200, jobs=8, mem_gb=12, label="decimal (radix+format build; the same harness needs > 800 s without the format feature)")]
     rad = ["c08::radix::rt_u8_r2", "c08::radix::rt_u8_r3", "c08::radix::rt_i8_r16", "c08::fmt::rt_i8_required_sign"]
     if tier == "thorough":
         rad += ["c08::radix::rt_i8_r7", "c08::radix::rt_u16_r32", "c08::radix::rt_i16_r16", "c08::radix::rt_i16_r36", "c08::fmt::rt_i16_no_positive_sign"]
